@@ -158,7 +158,15 @@ class Evaluator:
         if not (z3.is_app(body) and body.decl().kind() == z3.Z3_OP_IMPLIES and q.is_forall()):
             return rng
         guard = body.arg(0)
-        conj = guard.children() if z3.is_and(guard) else [guard]
+        conj = []
+
+        def flat(g):
+            if z3.is_and(g):
+                for c_ in g.children():
+                    flat(c_)
+            else:
+                conj.append(g)
+        flat(guard)
 
         def hasvar(e):
             if z3.is_var(e):
